@@ -28,6 +28,7 @@ def main():
     ap.add_argument("--checks")
     ap.add_argument("--skip-baseline", action="store_true")
     ap.add_argument("--seed", default="1")
+    ap.add_argument("--store-as", help="index under which the change is stored (default: k)")
     a = ap.parse_args()
     patch = os.path.join(a.delivery, f"patch{a.k}.diff")
     demo = os.path.join(a.delivery, f"demo{a.k}.py")
@@ -75,7 +76,7 @@ def main():
         confirmed = res.get("demo_clean_exit") == 0 and res.get("demo_patched_exit", 0) != 0 and res.get("baseline_ok", a.skip_baseline)
         res["confirmed"] = bool(confirmed)
         if confirmed:
-            d = os.path.join(VERIF, "seeded", f"{a.prop}-{a.k}")
+            d = os.path.join(VERIF, "seeded", f"{a.prop}-{a.store_as or a.k}")
             os.makedirs(d, exist_ok=True)
             shutil.copy(patch, os.path.join(d, "patch.diff"))
             shutil.copy(demo, os.path.join(d, "demo.py"))
